@@ -209,4 +209,3 @@ func hasCRTabLF(o *Out, m *OutMsg) bool {
 	}
 	return false
 }
-
